@@ -909,7 +909,8 @@ def mon_c17(ix: Index):  # noqa: C901, PLR0912
                     a = ctx_path(p)
                     while a is not None:
                         if start["statuses"].get(ix.path2id.get(a)) in TERMINAL:
-                            kinds.add("inner-op-of-completed-context")
+                            if not (ix.r["scenario"].get("world") or {}).get("prune_completed"):
+                                kinds.add("inner-op-of-completed-context")  # (a pruned history does not list them, so they cannot be the cause)
                             break
                         a = ctx_path(a)
                     if start["statuses"].get(ix.path2id.get(p)) == "FAILED":
